@@ -72,7 +72,12 @@ def build_doc(unions: list[dict]) -> dict:
             members.append(R(v) if (v in DISC or POOL[v][1] is not None) else POOL[v][0])
         node = {u["kw"]: members}
         if u.get("disc"):
-            node["discriminator"] = {"propertyName": "kind", "mapping": {DISC[v][1]: f"#/components/schemas/{v}" for v in u["variants"]}}
+            order = list(u["variants"])
+            if u.get("mapping_order") == "reversed":
+                order.reverse()
+            elif u.get("mapping_order") == "sorted":
+                order.sort(key=lambda v: DISC[v][1])
+            node["discriminator"] = {"propertyName": "kind", "mapping": {DISC[v][1]: f"#/components/schemas/{v}" for v in order}}
         schemas[u["name"]] = node
         schemas["ListOf" + u["name"]] = {"type": "array", "items": R(u["name"])}
         schemas["Holder" + u["name"]] = {"type": "object", "properties": {"val": R(u["name"]), "vals": {"type": "array", "items": R(u["name"])},
@@ -103,6 +108,9 @@ def all_unions(ctx: Ctx) -> list[dict]:
         for t in itertools.permutations(list(DISC), k):
             n += 1
             us.append({"name": f"Du{n}", "variants": list(t), "kw": "oneOf", "disc": True})
+            for mo in ("reversed", "sorted"):   # the mapping may list the variants in another order than oneOf does
+                n += 1
+                us.append({"name": f"Du{n}", "variants": list(t), "kw": "oneOf", "disc": True, "mapping_order": mo})
     return us
 
 
